@@ -91,6 +91,17 @@ func c20Leaves() []J {
 		"mapd/additionalProperties", "matrix/items", "extobj/properties/a", "allofd/allOf/1", "disc/properties/kind"} {
 		out = append(out, J{"$ref": "#/definitions/" + ptr})
 	}
+	// empty versus absent: a keyword that is present with an empty list / object says the same as no keyword at all
+	// (these are decoded directly into spec.Schema: the lists are non-nil and empty there, and nil behind a $ref)
+	out = append(out,
+		J{"allOf": []any{}},
+		J{"type": "object", "allOf": []any{}},
+		J{"type": "object", "properties": J{}},
+		J{"type": "object", "properties": J{}, "additionalProperties": J{"type": "string"}},
+		J{"type": "object", "allOf": []any{}, "additionalProperties": J{"type": "string"}},
+		J{"type": "string", "enum": []any{}},
+		J{"type": "object", "required": []any{}},
+	)
 	return out
 }
 
